@@ -126,8 +126,10 @@ package main
 //@   at call (*main.mainCmd).preview assert [C18] generated-skipped: !(opts.SkipGenerated && ret("main.checkGeneratedCode", 0))
 //@   at call (*main.mainCmd).printComments assert [C06,C12] only-matched: ok
 //@   at call (*main.patchRunner).Apply assert [C18] generated-skipped: !(opts.SkipGenerated && ret("main.checkGeneratedCode", 0))
+//@   at call os.WriteFile set intended = store(intended, arg0, string(arg1))
 //@   loop 0
 //@     invariant [C12] dry-run-frame: (opts.Diff || opts.Print) ==> disk == old(disk)
+//@     invariant [C16] every-file-holds-its-original-or-its-complete-patched-bytes: forall q string {disk[q]} :: disk[q] == old(disk)[q] || disk[q] == intended[q]
 
 //@ func funcval:github.com/uber-go/gopatch.mainCmd.Getwd() (dir, err)
 //@   assigns nothing
